@@ -8,6 +8,7 @@ import (
 	"os"
 	"path/filepath"
 	"runtime/debug"
+	"runtime/pprof"
 	"sort"
 	"strconv"
 	"time"
@@ -32,6 +33,12 @@ func main() {
 	repo := flag.String("repo", "", "repository directory (default $VERIF_REPO or /repo)")
 	list := flag.Bool("list", false, "list properties")
 	flag.Parse()
+	if pf := os.Getenv("VERIF_CPUPROFILE"); pf != "" {
+		if f, err := os.Create(pf); err == nil {
+			pprof.StartCPUProfile(f)
+			defer pprof.StopCPUProfile()
+		}
+	}
 	if *list {
 		var ids []string
 		for id := range props {
@@ -100,5 +107,6 @@ func main() {
 		r.note("sensitivity audit: %d/%d recorded mutants behave as expected (break -> reported, keep -> silent)", okN, len(res))
 	}
 	code := r.finish(verifDir, time.Since(start).Seconds(), seed, pd.Explanation)
+	pprof.StopCPUProfile()
 	os.Exit(code)
 }
